@@ -614,13 +614,13 @@ theorem name_call_effect (s : RealState) (hw : WF s.fs) (hl : LinkFree s.fs) (hf
 
 /-- the same call, with everything the next call needs: it succeeds when the source exists and the destination
     does not; the new tree is well-formed and link-free, has the same directories, no fault is pending -/
-theorem name_call_step (s : RealState) (hw : WF s.fs) (hl : LinkFree s.fs) (hfault : s.faultAt = none)
-    (dir : APath) (src dst : PurePath) (hG : C05.NameCall s.fs dir src dst)
-    (hsrc : lexists s.fs (absKey dir src) = true) (hdst : lexists s.fs (absKey dir dst) = false) :
-    (fileRenamer s dir src dst false).2 = none ∧
-    (fileRenamer s dir src dst false).1.faultAt = none ∧ WF (fileRenamer s dir src dst false).1.fs ∧
-    LinkFree (fileRenamer s dir src dst false).1.fs ∧
-    (∀ p, isDirAt (fileRenamer s dir src dst false).1.fs p = isDirAt s.fs p) := by
+theorem name_call_step_ov (s : RealState) (hw : WF s.fs) (hl : LinkFree s.fs) (hfault : s.faultAt = none)
+    (dir : APath) (src dst : PurePath) (ov : Bool) (hG : C05.NameCall s.fs dir src dst)
+    (hsrc : lexists s.fs (absKey dir src) = true) (hdst : ov = true ∨ lexists s.fs (absKey dir dst) = false) :
+    (fileRenamer s dir src dst ov).2 = none ∧
+    (fileRenamer s dir src dst ov).1.faultAt = none ∧ WF (fileRenamer s dir src dst ov).1.fs ∧
+    LinkFree (fileRenamer s dir src dst ov).1.fs ∧
+    (∀ p, isDirAt (fileRenamer s dir src dst ov).1.fs p = isDirAt s.fs p) := by
   have hG' := hG
   obtain ⟨sp, n, m, rfl, rfl, hnm, hn, hm, hsp, hanc, hna, hnb⟩ := hG
   have hab : dir ++ sp ++ [n] ≠ dir ++ sp ++ [m] := by
@@ -650,8 +650,10 @@ theorem name_call_step (s : RealState) (hw : WF s.fs) (hl : LinkFree s.fs) (hfau
   rw [hkey n hn] at hsrc
   rw [hkey m hm] at hdst
   have ha0 : dir ++ sp ++ [n] ≠ [] := by simp
-  have hlex : lexistsRel s.fs dir ⟨false, sp ++ [m]⟩ = false := by
-    unfold lexistsRel; rw [hwalk m hm]; exact hdst
+  have hlex : (!ov && lexistsRel s.fs dir ⟨false, sp ++ [m]⟩) = false := by
+    rcases hdst with h | h
+    · simp [h]
+    · unfold lexistsRel; rw [hwalk m hm]; simp only; rw [h]; simp
   obtain ⟨ea, hfa⟩ : ∃ ea, s.fs.find (dir ++ sp ++ [n]) = some ea := by
     unfold lexists at hsrc
     rw [if_neg ha0] at hsrc
@@ -668,11 +670,11 @@ theorem name_call_step (s : RealState) (hw : WF s.fs) (hl : LinkFree s.fs) (hfau
     have := hanc sp.length (Nat.le_refl _)
     simpa using this
   obtain ⟨fs', hren, hw', hmem⟩ := renameAbs_leaf hw hfa hka hab (by simp) hpd hnb
-  have hcall : fileRenamer s dir ⟨false, sp ++ [n]⟩ ⟨false, sp ++ [m]⟩ false =
+  have hcall : fileRenamer s dir ⟨false, sp ++ [n]⟩ ⟨false, sp ++ [m]⟩ ov =
       ({ s with fs := fs', log := s.log ++ [.rename (dir ++ sp ++ [n]) (dir ++ sp ++ [m])], hist := s.hist ++ [fs'] }, none) := by
     unfold fileRenamer
     rw [hlex]
-    simp only [Bool.not_false, Bool.and_false, Bool.false_eq_true, if_false]
+    simp only [Bool.false_eq_true, if_false]
     rw [if_neg (by simpa using hpar)]
     unfold renameRel
     rw [hwalk n hn, hwalk m hm]
@@ -709,6 +711,15 @@ theorem name_call_step (s : RealState) (hw : WF s.fs) (hl : LinkFree s.fs) (hfau
         · intro h
           have : isDirAt s.fs (dir ++ sp ++ [m]) = true := (isDirAt_iff hw.1 _).mpr (Or.inr ⟨d, hd, h, hdk⟩)
           rw [hnb] at this; exact absurd this (by decide)
+
+theorem name_call_step (s : RealState) (hw : WF s.fs) (hl : LinkFree s.fs) (hfault : s.faultAt = none)
+    (dir : APath) (src dst : PurePath) (hG : C05.NameCall s.fs dir src dst)
+    (hsrc : lexists s.fs (absKey dir src) = true) (hdst : lexists s.fs (absKey dir dst) = false) :
+    (fileRenamer s dir src dst false).2 = none ∧
+    (fileRenamer s dir src dst false).1.faultAt = none ∧ WF (fileRenamer s dir src dst false).1.fs ∧
+    LinkFree (fileRenamer s dir src dst false).1.fs ∧
+    (∀ p, isDirAt (fileRenamer s dir src dst false).1.fs p = isDirAt s.fs p) :=
+  name_call_step_ov s hw hl hfault dir src dst false hG hsrc (Or.inr hdst)
 
 /-! ### the plan applied to the initial tree -/
 
